@@ -867,6 +867,7 @@ class Emitter:
         if kind == 'list':
             it = Type('std::list', oty.args, suffix='const_iterator')
             if mname == 'empty' and not a: return ('VB_LIST_EMPTY(%s)' % ot, Type('bool'))
+            if mname == 'size' and not a: return ('VB_LIST_SIZE(%s)' % ot, Type('size_t'))
             if mname == 'front' and not a: return ('VB_LIST_FRONT(%s)' % ot, oty.args[0])
             if mname == 'back' and not a: return ('VB_LIST_BACK(%s)' % ot, oty.args[0])
             if mname == 'push_back' and len(a) == 1:
